@@ -262,6 +262,14 @@ pub fn run_pipeline_case(
     }
     let ref_bundle = reference::take_ref_bundle(&mut ref_state, want.retention());
     let mut workload_probes = workload_reach(&ref_first, &ref_bundle, &precompile_log_ref);
+    let blobs = s.txs.iter().filter(|t| t.tx_type == 3).count() as u64;
+    if blobs > 0 {
+        workload_probes.push(("probe.blob_transactions", blobs));
+        let malformed = s.txs.iter().filter(|t| t.tx_type == 3 && t.label.contains('+')).count() as u64;
+        if malformed > 0 {
+            workload_probes.push(("probe.blob_transactions_malformed", malformed));
+        }
+    }
     if s.txs.len() > 8 {
         workload_probes.push(("probe.large_block_cases", 1));
         workload_probes.push(("probe.large_block_transactions", s.txs.len() as u64));
@@ -787,8 +795,11 @@ pub fn run_relation_case(scenario: &Arc<Scenario>, sched: &SchedSpec, replay: Op
             let mut own: Vec<usize> = Vec::new();
             for (i, t) in s.txs.iter().enumerate() {
                 if t.caller == acc.address {
-                    let fee = revm_primitives::U256::from(t.gas_limit) * revm_primitives::U256::from(t.gas_price);
-                    required = required.saturating_add(fee).saturating_add(t.value);
+                    // revm's own maximum cost of the transaction (gas limit x fee cap + value + blob gas x
+                    // blob fee cap for type-3 transactions)
+                    use revm::context_interface::Transaction;
+                    let cost = crate::evmenv::make_tx(t).max_balance_spending().unwrap_or(revm_primitives::U256::MAX);
+                    required = required.saturating_add(cost);
                     own.push(i);
                 }
             }
